@@ -86,7 +86,7 @@ def configs(tier, seed):
             for op in OPS1:
                 dim = 2 if op in ("M@A", "A@M") or (op in ("neg", "s*A", "A*s", "A/s") and k % 2) else 0
                 cfgs.append(dict(name=f"pair{k} {op} dim={dim}", kind="unary", op=op, rat="", dim=dim, **base))
-                if op in ("neg", "s+A", "A-s", "s*A", "A/s", "s/A"):
+                if op not in ("M@A", "A@M"):  # (matrix forms act on 2-D points; rational runs use scalar points)
                     cfgs.append(dict(name=f"pair{k} {op} rat dim=0", kind="unary", op=op, rat="A", dim=0, **base))
     cfgs.append(dict(name="different intervals", kind="interval"))
     return cfgs
